@@ -165,6 +165,7 @@ def main():
     results = core.run_jobs(jobs)
     rep.add_results(results)
     core.triage(rep, results, info)
+    rep.validate_translation(info)
     return rep.finish('proof', 'goto-cc | cbmc --unwind <image length> --unwinding-assertions ' + ' '.join(bc.FLAGS) + ' (decode/encode harness on the extracted codecs over concrete reference images with a symbolic 8-byte window)',
                       core.TRUSTED_BASE + ['tools/blfwalk.py: independent stdlib-only walker that extracts the object images'],
                       extra=dict(images=nimg, window_scenarios=nscen, exhaustive=(t == 'thorough'), images_outside_domain=skipped))
